@@ -27,7 +27,7 @@ fn gen_selector(r: &mut Rng) -> String {
 
 pub fn run(ctx: &mut Ctx) {
     let sub = "lookup";
-    let cases = ctx.n(400_000, 6_000_000);
+    let cases = ctx.n(400_000, 60_000_000);
     for idx in 0..cases {
         if ctx.stop() {
             break;
